@@ -335,6 +335,7 @@ def reader_table(program) -> Dict[str, dict]:
                     if kw.arg in ('start', 'end', 'ambiguous', 'mods'):
                         slots[kw.arg] = norm_stmt(kw.value)
         amb_expr = slots.get('ambiguous', 'dummy_interval[2]')
+        cres = Canon(f.node)     # values copied through single-assignment locals are read through
 
         def visit(block, conds: List[Tuple[str, str]], defs: Dict[str, Tuple[str, str]], extra: List[str]):
             defs = dict(defs)
@@ -381,9 +382,9 @@ def reader_table(program) -> Dict[str, dict]:
                         if slot_ == amb_expr and isinstance(v_, ast.Constant) and v_.value is True:
                             markers['ambiguous'] = {'conds': list(conds), 'loc': f.loc(st)}
                         if slot_ == slots.get('start') and not is_none:
-                            markers['open'] = {'conds': list(conds), 'loc': f.loc(st), 'start': norm_stmt(v_)}
+                            markers['open'] = {'conds': list(conds), 'loc': f.loc(st), 'start': norm_stmt(cres.resolve(v_))}
                         if slot_ == slots.get('end') and not is_none:
-                            markers['close'] = {'conds': list(conds), 'loc': f.loc(st), 'end': norm_stmt(v_)}
+                            markers['close'] = {'conds': list(conds), 'loc': f.loc(st), 'end': norm_stmt(cres.resolve(v_))}
                         if slot_ == slots.get('mods') and _parse_mods_call(v_) is not None and \
                                 not isinstance(st.targets[0], ast.Subscript):
                             br_ = _parse_mods_call(v_)
@@ -684,10 +685,11 @@ def interval_state(ctx, rep, clause):
     start_name = record or (start_arg.id if isinstance(start_arg, ast.Name) else None)
     open_body = None
     for x in ast.walk(f.node):
-        if isinstance(x, ast.If) and start_name is not None and any(
-                isinstance(st, ast.Assign) and norm_stmt(st.targets[0]) == start_name and
-                not (isinstance(st.value, ast.Constant) and st.value.value is None) for st in x.body):
-            open_body = x.body
+        if isinstance(x, ast.If) and start_name is not None:
+            for blk in (x.body, x.orelse):
+                if any(isinstance(st, ast.Assign) and norm_stmt(st.targets[0]) == start_name and
+                       not (isinstance(st.value, ast.Constant) and st.value.value is None) for st in blk):
+                    open_body = blk
     if open_body is None:
         raise AnalysisError('_parse_sequence_middle: the branch that opens an interval was not found')
     # the branch that closes it: the innermost if-body holding the Interval(...) call
